@@ -601,6 +601,14 @@ template<class C, class K, class V, bool ORD> struct Engine
 				sl.c.reset(Fresh<C, ORD>::make(r, c));
 				sl.m.clear();
 			} else if (w < 93) eq_slots(sl, s[r.below(NS)], OrdTag());
+			else if (w == 95) {
+				// assigning a container to itself changes nothing
+				last = "self-assignment";
+				c.op("m = m");
+				C& self = *sl.c;
+				*sl.c = self;
+				c.count("op.self-assignment");
+			}
 			else if (w < 95 && !sl.m.empty()) {
 				// set(key, value) where value is a reference to an entry of the same map: the stored value is the one the source held before the call
 				MK src = present_key(sl), k = pick(sl, 0.3);
